@@ -54,14 +54,20 @@ struct env E;
 
 static void logc(char c) { if (E.ncalls < (int)sizeof E.calls - 1) { E.calls[E.ncalls++] = c; E.calls[E.ncalls] = 0; } }
 
+/* re-entrancy: the allocator callback may itself call polyseed_inject (an application that installs its final dependency table lazily).
+ * E_reinject_from_alloc = t arms that for the next allocator callback; from then on E_tif is the table in force and every call of a
+ * table-specific function of the other table is counted in E_stale_calls */
+int E_reinject_from_alloc = -1, E_tif = -1; unsigned long E_stale_calls;
+#define STALE(t) do { if (E_tif >= 0 && E_tif != (t)) E_stale_calls++; } while (0)
 static void do_rand(int t, void *p, size_t n) {
+    STALE(t);
     E.n_rand++; E.last_table = t; E.last_rand_n = n; E.last_rand_p = p; logc('R');
     for (size_t i = 0; i < n; i++) ((uint8_t *)p)[i] = E.tape[t][i % 32];
 }
 static void rand_a(void *p, size_t n) { do_rand(0, p, n); }
 static void rand_b(void *p, size_t n) { do_rand(1, p, n); }
-static uint64_t time_a(void) { E.n_time++; E.last_table = 0; logc('T'); if (E.clock_seq_n > 0) return E.clock_seq[E.clock_seq_i++ % E.clock_seq_n]; return E.clock[0]; }
-static uint64_t time_b(void) { E.n_time++; E.last_table = 1; logc('T'); return E.clock[1]; }
+static uint64_t time_a(void) { STALE(0); E.n_time++; E.last_table = 0; logc('T'); if (E.clock_seq_n > 0) return E.clock_seq[E.clock_seq_i++ % E.clock_seq_n]; return E.clock[0]; }
+static uint64_t time_b(void) { STALE(1); E.n_time++; E.last_table = 1; logc('T'); return E.clock[1]; }
 
 /* ---- the process environment.  A library function that asks for an environment variable gets an answer: every name outside the
  * ones the harness and the C library themselves use "exists" and holds a number.  The unchanged library never asks.  (Defining
@@ -110,6 +116,7 @@ static void dep_kdf_b(const uint8_t *pw, size_t pwlen, const uint8_t *salt, size
 }
 static int mz_table;
 static void dep_memzero(void *const p, const size_t n) {
+    STALE(mz_table);
     E.n_mz++; E.n_mz_tab[mz_table]++; logc('Z');
     if (E.nmz < 32) { E.mz[E.nmz].p = p; E.mz[E.nmz].n = n; E.nmz++; }
     volatile uint8_t *q = p;
@@ -157,13 +164,16 @@ static void ledger_free(void *p) {
     }
     E.err_foreign_free++;               /* unknown or repeated pointer: do not touch it */
 }
-static void *dep_alloc(size_t n) { E.n_alloc++; E.n_alloc_tab[0]++; logc('A'); return ledger_alloc(n); }
-static void dep_free(void *p) { E.n_free++; E.n_free_tab[0]++; logc('F'); ledger_free(p); }
+/* errno is unspecified after a successful allocation; the harness allocators leave the least convenient value (the library may not read it:
+ * the only failure signal of an injected allocator is a NULL result) */
+static void reinject_now(void);
+static void *dep_alloc(size_t n) { STALE(0); E.n_alloc++; if (E_reinject_from_alloc >= 0) reinject_now(); else E.n_alloc_tab[0]++; logc('A'); void *p = ledger_alloc(n); errno = ENOMEM; return p; }
+static void dep_free(void *p) { STALE(0); E.n_free++; E.n_free_tab[0]++; logc('F'); ledger_free(p); }
 /* table B has its own entry points (same ledger): which table's functions were called is observable */
-static void *dep_alloc_b(size_t n) { E.n_alloc++; E.n_alloc_tab[1]++; logc('A'); return ledger_alloc(n); }
-static void dep_free_b(void *p) { E.n_free++; E.n_free_tab[1]++; logc('F'); ledger_free(p); }
+static void *dep_alloc_b(size_t n) { STALE(1); E.n_alloc++; if (E_reinject_from_alloc >= 0) reinject_now(); else E.n_alloc_tab[1]++; logc('A'); void *p = ledger_alloc(n); errno = ENOMEM; return p; }
+static void dep_free_b(void *p) { STALE(1); E.n_free++; E.n_free_tab[1]++; logc('F'); ledger_free(p); }
 /* the library's references to libc malloc/free/time are renamed to these by the build */
-void *ps_libc_malloc(size_t n) { E.n_libc_malloc++; logc('m'); return ledger_alloc(n); }
+void *ps_libc_malloc(size_t n) { E.n_libc_malloc++; logc('m'); void *p = ledger_alloc(n); errno = ENOMEM; return p; }
 void ps_libc_free(void *p) { E.n_libc_free++; logc('f'); ledger_free(p); }
 time_t E_libc_time_value = (time_t)1700000000;      /* what the C library's clock reads (the library's reference to time() is renamed to this function) */
 time_t ps_libc_time(time_t *t) { E.n_libc_time++; logc('t'); if (t) *t = E_libc_time_value; return E_libc_time_value; }
@@ -179,8 +189,10 @@ void deps_variant(int t, int nt, int na, int nf, polyseed_dependency *o) {
     if (nf) o->free = NULL;
 }
 void inject(int t) { polyseed_dependency d = DEPS[t]; polyseed_inject(&d); memset(&d, 0xEE, sizeof d); }
+static void reinject_now(void) { int t = E_reinject_from_alloc; E_reinject_from_alloc = -1; inject(t); E_tif = t; }
 
 void env_clear_log(void) {
+    E_tif = -1; E_stale_calls = 0; E_reinject_from_alloc = -1;
     E.n_rand = E.n_time = E.n_alloc = E.n_free = E.n_mz = E.n_kdf = E.n_nfc = E.n_nfkd = 0;
     E.n_libc_malloc = E.n_libc_free = E.n_libc_time = 0; E.n_alloc_tab[0] = E.n_alloc_tab[1] = E.n_free_tab[0] = E.n_free_tab[1] = E.n_mz_tab[0] = E.n_mz_tab[1] = 0;
     E.ncalls = 0; E.calls[0] = 0; E.nmz = 0; E.alloc_seq = 0;
